@@ -13,7 +13,7 @@
 (*   (3) prints the case as JSON; the Go harness replays every case on the *)
 (*       real routers and the observations are judged by RoutingTrace.     *)
 (***************************************************************************)
-EXTENDS Routing, CurlyImpl, Json, TLC, SequencesExt
+EXTENDS Routing, Jsr311Impl, Json, TLC, SequencesExt
 
 CONSTANTS Mode, Tier
 
@@ -40,9 +40,12 @@ CommonRoots == IF Tier = "quick" THEN {"/", "/r", "/r/a"} ELSE {"/", "/r", "/r/a
 
 \* ---------------- tables ----------------
 Routes1(templates, methods) == {R0(m, p) : m \in methods, p \in templates}
+\* one route, or two different routes in one fixed order (the other registration order is
+\* covered by the PermInvariant theorem and, on the real code, by the permuted builds of C03)
 RouteSeqs(rs, maxLen) ==
+  LET L == SetToSeq(rs) IN
   {<<r>> : r \in rs} \cup
-  (IF maxLen >= 2 THEN {<<p[1], p[2]>> : p \in {x \in rs \X rs : x[1] # x[2]}} ELSE {})
+  (IF maxLen >= 2 THEN {<<L[p[1]], L[p[2]]>> : p \in {x \in (1..Len(L)) \X (1..Len(L)) : x[1] < x[2]}} ELSE {})
 Svc(root, routes) == [root |-> root, routes |-> routes]
 
 HeaderRoutes ==
@@ -162,10 +165,11 @@ RevTable(t) == Rev([w \in 1..Len(t) |-> [t[w] EXCEPT !.routes = Rev(@)]])
 RevShape(t, sh) ==
   IF sh[1] = "route" THEN <<"route", Len(t) + 1 - sh[2], Len(t[sh[2]].routes) + 1 - sh[3]>> ELSE sh
 
-Theorems(t, T, TR, req, co) ==
+Theorems(t, T, TR, req, co, jo) ==
   LET cC == Ctx("curly", T, req)
       LC == LegalSetC(T, req, cC)
-      LJ == LegalSet("jsr311", T, req)
+      cJ == Ctx("jsr311", T, req)
+      LJ == LegalSetC(T, req, cJ)
       errs == {o \in LC : o.k = "err"}
   IN \* totality: some outcome is always allowed, under either profile
      /\ LC # {} /\ LJ # {}
@@ -181,6 +185,7 @@ Theorems(t, T, TR, req, co) ==
      /\ {RevShape(t, sh) : sh \in Shapes(LC)} = Shapes(LegalSet("curly", TR, req))
      \* Layer B inside Layer A
      /\ \A o \in co : LegalC(T, req, cC, o)
+     /\ \A o \in jo : LegalC(T, req, cJ, o)
 
 VARIABLES phase, tbl
 vars == <<phase, tbl>>
@@ -198,10 +203,12 @@ Check ==
     LET T == Prepare(tbl)   TR == Prepare(RevTable(tbl))
         rseq == SetToSeq(Requests(T))
         res == [i \in 1..Len(rseq) |->
-                  LET co == CurlyOutcomes(T, rseq[i]) IN
-                  [ok |-> Theorems(tbl, T, TR, rseq[i], co), pred |-> PredOf(co)]]
+                  LET co == CurlyOutcomes(T, rseq[i])
+                      jo == JsrOutcomes(T, rseq[i]) IN
+                  [ok |-> Theorems(tbl, T, TR, rseq[i], co, jo), pred |-> PredOf(co), predj |-> PredOf(jo)]]
     IN /\ DominanceStrict(T)
        /\ \A i \in 1..Len(rseq) : res[i].ok
        /\ PrintT("CASE " \o ToJson([services |-> tbl, reqs |-> rseq,
-                                     pred |-> [i \in 1..Len(rseq) |-> res[i].pred]]))
+                                     pred |-> [i \in 1..Len(rseq) |-> res[i].pred],
+                                     predj |-> [i \in 1..Len(rseq) |-> res[i].predj]]))
 =============================================================================
